@@ -126,8 +126,10 @@ def run_layout(case):
 
 # ------------------------------------------------------------------ B: generated unrelated content
 
-INI_SECTIONS = ["metadata", "options", "tool:pytest", "flake8", "mypy", "bdist_wheel", "options.extras_require", "x y", "isort"]
-KEYS = ["name", "version", "packages", "universal", "max-line-length", "addopts", "current", "pattern", "commit", "tag", "description"]
+INI_SECTIONS = ["metadata", "options", "tool:pytest", "flake8", "mypy", "bdist_wheel", "options.extras_require", "x y", "isort",
+                "bumpversion", "bumpversion:file:setup.py"]  # (another tool's sections that begin like ours)
+KEYS = ["name", "version", "packages", "universal", "max-line-length", "addopts", "current", "pattern", "commit", "tag", "description",
+        "current_version"]
 VALS = ["demo", "1.2.3", "find:", "true", "100", "--cov", "attr: demo.__version__", "ünï", "a = b", "x ; y", "# not a comment?", '"quoted"', ""]
 
 
@@ -161,7 +163,8 @@ def gen_toml(d, pyproject):
     lines = []
     if d.chance(1, 4):
         lines.append("# comment " + d.choice(["x", "ünï", "[bumpver-like]"]))
-    tables = ["build-system", "tool.black", "tool.isort", "project", "tool.pytest.ini_options", "other", "tool.poetry.dependencies"]
+    tables = ["build-system", "tool.black", "tool.isort", "project", "tool.pytest.ini_options", "other", "tool.poetry.dependencies",
+              "tool.bumpversion", "bumpversion"]
     used = set()
     for _ in range(d.int(1, 4)):
         t = d.choice(tables)
